@@ -11,6 +11,8 @@ def run(ctx):
     ctx.assumptions = ["time does not advance between an upstream fetch and its store (hooked clock)", "verif clock hook replaces the package clock",
                        "race detector as the observation instrument for the data-race clause"]
     # design level: all interleavings of 2 goroutines
+    # unbounded design-level result (any number of goroutines, keys, generations, clock range, TTL lists): TLAPS
+    ctx.tlaps("ResolverCacheProof", deps=("ResolverCache",), theorem="Spec => [](Fresh /\\ EntryExact), MinOf uninterpreted")
     ctx.mc("ResolverCache", "MCResolverCache_concq.cfg" if ctx.quick else "MCResolverCache_conc.cfg", timeout=3000)
     if ctx.replay:
         cases = [json.load(open(ctx.replay))["replay"]["case"]]
